@@ -10,6 +10,7 @@
               n_start_sits / n_all_dists / n_sits only as `<' or `>='."""
 from ..model import resolve_addr, strip_casts, strip_int_casts, const_int, loaded_from
 from ..core import AnalysisBroken
+from .. import expr
 from .r5 import _controlling_conditions
 
 
@@ -437,7 +438,8 @@ def _set_writer_kind(p, g, memo, depth=0):
             if v is not None and v.op == "or":
                 for o in v.ops:
                     l_ = g.inst(strip_int_casts(g, o))
-                    if l_ is not None and l_.op == "load" and strip_casts(g, l_.ops[0]) == strip_casts(g, s_.ops[1]):
+                    if l_ is not None and l_.op == "load" and (strip_casts(g, l_.ops[0]) == strip_casts(g, s_.ops[1]) or
+                                                                  expr.addr_str(g, l_.ops[0], 0, 3) == expr.addr_str(g, s_.ops[1], 0, 3)):
                         acc = True
             if acc and kind == "read":
                 kind = "accumulate"
@@ -502,7 +504,7 @@ def rule_lookahead_accumulated(ctx, rep, config="c-lib"):
         if s_.op != "store" or not from_set(s_.ops[1]):
             continue
         v = f.inst(strip_int_casts(f, s_.ops[0]))
-        acc = v is not None and v.op == "or" and any((lambda l_: l_ is not None and l_.op == "load" and strip_casts(f, l_.ops[0]) == strip_casts(f, s_.ops[1]))(
+        acc = v is not None and v.op == "or" and any((lambda l_: l_ is not None and l_.op == "load" and (strip_casts(f, l_.ops[0]) == strip_casts(f, s_.ops[1]) or expr.addr_str(f, l_.ops[0], 0, 3) == expr.addr_str(f, s_.ops[1], 0, 3)))(
             f.inst(strip_int_casts(f, o))) for o in v.ops)
         ops.append((s_, "accumulate" if acc else "overwrite"))
     accs = [c for (c, k) in ops if k == "accumulate"]
